@@ -554,6 +554,61 @@ func runC15(c *core.Ctx) {
 			}
 		}
 	}
+	// ---- B6: an input type the application bound to a Go struct (RegisterType) is the type of a directive argument: a load that
+	// comes AFTER the registration uses the directive (and validates its default again) - what the root prints is still a
+	// schema, accepted by a fresh root, and prints again as the same text
+	for ni, later := range []string{
+		"type Later @d(p: {a: 1}) { i: Int }\ntype Other @d { i: Int }\n", "enum E { X @d(p: {a: 2, b: \"y\"}) }\n", "type Later @l(ps: [{a: 1}, {b: \"z\"}]) { i: Int }\n", "type Plain { i: Int }\n",
+	} {
+		if !c.Owns(fmt.Sprintf("B6|%d", ni)) {
+			continue
+		}
+		c.Nontrivial()
+		c.Eval()
+		c.R.Distinct++
+		const first = "input Opt { a: Int b: String = \"x\" }\ndirective @d(p: Opt = {a: 7}) on OBJECT | ENUM_VALUE\ndirective @l(ps: [Opt]) on OBJECT\ntype Query { i: Int }\n"
+		var p0, p1, p2 string
+		var err0, err1, err2, regErr error
+		pi := core.Safe(func() {
+			r1 := ggql.NewRoot(c16Dummy{})
+			if err0 = r1.ParseString(first); err0 != nil {
+				return
+			}
+			p0 = r1.SDL(false, true)
+			if regErr = r1.RegisterType(&C15Opt{}, "Opt"); regErr != nil {
+				return
+			}
+			if err1 = r1.ParseString(later); err1 != nil {
+				return
+			}
+			p1 = r1.SDL(false, true)
+			r2 := ggql.NewRoot(c16Dummy{})
+			if err2 = r2.ParseString(p1); err2 != nil {
+				return
+			}
+			p2 = r2.SDL(false, true)
+		})
+		detail := map[string]interface{}{"first_load": first, "registered": "RegisterType(&C15Opt{}, \"Opt\")", "later_load": later, "printed_before": p0, "printed": p1, "printed_again": p2}
+		attrs := map[string]string{"part": "B6", "site": "registered-input-as-directive-argument"}
+		switch {
+		case pi != nil:
+			detail["panic"] = pi.Value
+			c.Violation("panic", map[string]string{"site": pi.Site, "class": pi.Class, "part": "B6"}, detail)
+		case err0 != nil || regErr != nil || err1 != nil:
+			panic(core.EngineError{Msg: fmt.Sprintf("C15 B6 refused: %v %v %v", err0, regErr, err1)})
+		case err2 != nil:
+			detail["diff"] = "the printed schema is refused: " + err2.Error()
+			attrs["stage"] = "reload"
+			c.Outcome("printed-sdl-refused")
+			c.Violation("load-differs", attrs, detail)
+		case p1 != p2:
+			detail["diff"] = firstLineDiff(p1, p2)
+			attrs["stage"] = "second-print"
+			c.Violation("load-differs", attrs, detail)
+		default:
+			c.Outcome("B6-agree")
+		}
+	}
 	// ---- D: schemas that arrive in several loads and never declare a schema block: what 'extend schema' said about the root
 	// operation types, beside unrelated types that happen to carry the conventional names and arrive in another load. Every
 	// sequence of <= 4 different units; after every accepted load the printed root is reloaded and compared.
@@ -644,7 +699,7 @@ func runC15(c *core.Ctx) {
 	if c.Shard == 0 {
 		c15Ggqlgen(c, bases)
 	}
-	c.R.Bound = fmt.Sprintf("A: %d schemas; B: %d sites x %d strings (<= %d units over %d); B2: 7 constant sites x (24 numbers + explicit null); B3: the same sites typed Float x 8 numbers a float32 holds exactly; B4: 4 schemas with defaults inside defaults; B5: Time constants with offsets at 5 kept-value sites; whole-root and per-type (reversed) printed forms; C: ggqlgen on the bases (thorough); D: every sequence of <= 4 (thorough: all 6) of 6 later loads around an undeclared schema", len(subjects), len(c15Sites()), len(strs), maxLen, len(c15Units))
+	c.R.Bound = fmt.Sprintf("A: %d schemas; B: %d sites x %d strings (<= %d units over %d); B2: 7 constant sites x (24 numbers + explicit null); B3: the same sites typed Float x 8 numbers a float32 holds exactly; B4: 4 schemas with defaults inside defaults; B5: Time constants with offsets at 5 kept-value sites; B6: a registered input type as directive argument type, 4 later loads; whole-root and per-type (reversed) printed forms; C: ggqlgen on the bases (thorough); D: every sequence of <= 4 (thorough: all 6) of 6 later loads around an undeclared schema", len(subjects), len(c15Sites()), len(strs), maxLen, len(c15Units))
 	if !completed {
 		c.Cap("deadline reached")
 	}
@@ -871,3 +926,9 @@ func c15ImplicitModel(b, back *sgen.Schema) string {
 }
 
 var c15TimeRe = regexp.MustCompile(`"\d{4}-\d\d-\d\dT[^"]*"`)
+
+// C15Opt is the Go struct an application registers for the input type Opt (part B6).
+type C15Opt struct {
+	A int32
+	B string
+}
